@@ -41,7 +41,7 @@ def main():
     sh("git checkout -- . && git clean -fdq -e OUT", cwd=wt)
     os.makedirs(os.path.join(wt, "tests"), exist_ok=True)
     shutil.copy(demo, os.path.join(wt, "tests", "demo.rs"))
-    rc, o = sh("cargo test --offline --test demo > demo_out.txt 2>&1; echo EXIT=$?; tail -15 demo_out.txt", cwd=wt)
+    rc, o = sh("bash -c 'cargo test --offline --test demo 2>&1 | tail -15; echo EXIT=${PIPESTATUS[0]}'", cwd=wt)  # a pipe, not a file: demos may lower RLIMIT_FSIZE
     clean_pass = "EXIT=0" in o
     meta["demo_passes_on_clean_tree"] = clean_pass
     os.remove(os.path.join(wt, "tests", "demo.rs"))
@@ -52,7 +52,7 @@ def main():
     meta["suite_passes_with_patch"] = suite_ok
     meta["suite_summary"] = o.strip().splitlines()[:4]
     shutil.copy(demo, os.path.join(wt, "tests", "demo.rs"))
-    rc, o = sh("cargo test --offline --test demo > demo_out.txt 2>&1; echo EXIT=$?; tail -25 demo_out.txt", cwd=wt)
+    rc, o = sh("bash -c 'cargo test --offline --test demo 2>&1 | tail -25; echo EXIT=${PIPESTATUS[0]}'", cwd=wt)
     meta["demo_fails_with_patch"] = "EXIT=0" not in o
     meta["demo_output_tail"] = o.strip().splitlines()[-8:]
     sh("git checkout -- . && git clean -fdq -e OUT", cwd=wt)
